@@ -8,7 +8,7 @@ Tie: seeded model-vs-implementation correspondences on _object_to_doc, _from_dic
 the ServerBase pipeline (valid documents, mutants, all 48 configurations), and a direct
 oracle that builds requests by the documented conventions with a reference codec written
 independently of both Spyne and the Coq text."""
-import os, sys, json, copy, time, traceback
+import os, sys, json, copy, time, traceback, random
 import lib
 from lib import gz, gtext, glist, gbool, gopt
 import dictdoc as D
@@ -18,7 +18,7 @@ THEOREMS = ['C02_utf8_roundtrip', 'C02_utf8_total', 'C02_decimal_text_roundtrip'
             'C02_serializer_writes_conventions', 'C02_reader_reads_conventions', 'C02_request_fidelity',
             'C02_response_fidelity_partial', 'C02_call_fidelity', 'C02_rpc_request_fidelity',
             'C02_rpc_response_fidelity', 'C02_response_positional_without_wrappers_refuted',
-            'C02_subclass_without_wrappers_refuted', 'C02_source_tables']
+            'C02_subclass_without_wrappers_refuted', 'C02_source_tables', 'C02_empty_is_none_only_empty_text']
 
 FUEL = 40
 IMPORTS = ('From SpyneV Require Import Base.Prelude Base.Ext Wire.Dict.\n'
@@ -221,7 +221,7 @@ def family_struct(check, tier, worlds, next_cfg):
                 multi, gty, gnil = g_slot(f, T)
                 for rep in range(reps + 1):
                     v = D.gen_field_value(rng, w.desc, f, 2, c['poly'], full=(rep == 1))
-                    nat = D.to_native(w.desc, w.classes, v)
+                    nat = D.to_native(w.desc, w.classes, v, chunks=rng)    # ByteArray values as random chunk sequences
                     o = D.observe(prot._object_to_doc, T, nat)
                     if o[0] == 'ok' and not D.doc_in_universe(o[1]):
                         continue
@@ -232,7 +232,7 @@ def family_struct(check, tier, worlds, next_cfg):
                     # the value, not of object identity
                     v2 = D.share_values(rng, [v])[0]
                     memo = {}
-                    nat2 = D.to_native(w.desc, w.classes, v2, memo)
+                    nat2 = D.to_native(w.desc, w.classes, v2, memo, chunks=rng)
                     if memo.get('hits'):
                         o2 = D.observe(prot._object_to_doc, T, nat2)
                         if not (o2[0] == 'ok' and not D.doc_in_universe(o2[1])):
@@ -294,6 +294,8 @@ def family_leaf(check, tier):
                     ('decimal', Decimal), ('bytes', ByteArray)):
         types.append((kind, T, True))
         types.append((kind, T.customize(nillable=False), False))   # only exercised under soft validation in the quick tier
+        types.append((kind, T(empty_is_none=True), True))          # '' / b'' are read as None; 0, 0.0, False are not
+        types.append((kind, T(empty_is_none=True, nillable=False), False))
     cases_e, cases_d = [], []
     for proto in D.PROTOS:
         for soft in (False, True):
@@ -303,14 +305,14 @@ def family_leaf(check, tier):
             for kind, T, nil in types:
                 if tier == 'quick' and not nil and not soft:
                     continue
-                gk = '(DPrim %s)' % D.g_kind(T, kind)
+                gk = D.g_prim(T, kind)
                 vals = [D.gen_leaf(rng, kind) for _ in range(3 if tier == 'quick' else 30)]
                 pool = {'int': [('int', z) for z in D.INT_POOL], 'text': [('text', s) for s in D.TEXT_POOL],
                         'bool': [('bool', True), ('bool', False)], 'double': [('double', x) for x in D.DOUBLE_POOL],
                         'decimal': [('decimal', decimal.Decimal(s)) for s in D.DEC_POOL], 'bytes': []}[kind]
                 docs = list(scalar_pool(c))
                 for v in vals + pool + [('none',)]:
-                    o = D.observe(prot._object_to_doc, T, D.to_native(None, None, v))
+                    o = D.observe(prot._object_to_doc, T, D.to_native(None, None, v, chunks=rng))
                     if o[0] == 'ok' and not D.doc_in_universe(o[1]):
                         continue
                     cases_e.append(('(%s, %s, %s, %s)' % (gc, gk, D.g_val(v), D.g_out(o, D.g_doc)),
@@ -473,7 +475,7 @@ def family_serve(check, tier, worlds, next_cfg):
                     memo = None
                     if rng.random() < 0.5:
                         rets, memo = D.share_values(rng, rets), {}      # instances shared inside and across the results
-                    w.returns[s['name']] = tuple(D.to_native(w.desc, w.classes, v, memo) for v in rets)
+                    w.returns[s['name']] = tuple(D.to_native(w.desc, w.classes, v, memo, chunks=rng, iters=False) for v in rets)
                     docs = []
                     styles = [{'key': 'str', 'text': 'str'}, {'key': 'bin', 'text': 'bin'}] if c['proto'] == 'msgpack' else [{}]
                     for st in styles:
@@ -606,19 +608,23 @@ def reason_key(e):
     return type(e).__name__
 
 
-def oracle_case(check, w, c, s, args, rets, style, rpc=False, origin='generated', share=False):
+def oracle_case(check, w, c, s, args, rets, style, rpc=False, origin='generated', share=False, chunk_seed=None):
     """one call built by the documented conventions against the real implementation;
     returns True iff the property held.  share: equal object values of the returned values are ONE instance
     (inside a result and across the results of the call); what is expected does not change"""
     app = w.app(c, rpc)
     name = s['name']
     memo = {} if share else None
-    w.returns[name] = tuple(D.to_native(w.desc, w.classes, v, memo) for v in rets)
+    if chunk_seed is None:
+        chunk_seed = check.rng.getrandbits(32)
+    # ByteArray values are returned as chunk sequences (lists / tuples / iterators, empty chunks, no chunk): the value
+    # is the concatenation, whatever the chunking
+    w.returns[name] = tuple(D.to_native(w.desc, w.classes, v, memo, chunks=random.Random(chunk_seed)) for v in rets)
     if share and not memo.get('hits'):
         share = False
     base = 'C02|%s%s|iw=%d|as=%s|poly=%d' % (c['proto'], '-rpc' if rpc else '', c['iw'], 'list' if c['list'] else 'dict', c['poly'])
     replay = {'cfg': c, 'rpc': rpc, 'desc': w.desc, 'sig': s, 'args': [D.jsonable(v) for v in args],
-              'rets': [D.jsonable(v) for v in rets], 'style': style, 'origin': origin, 'share': bool(share),
+              'rets': [D.jsonable(v) for v in rets], 'style': style, 'origin': origin, 'share': bool(share), 'chunk_seed': chunk_seed,
               'shared_instances': (memo or {}).get('hits', 0)}
     shared = '|shared-instance' if share else ''
     snote = (' [equal objects in the returned values are one shared instance, %d reuses]' % memo['hits']) if share else ''
@@ -716,7 +722,17 @@ DIRECTED_DESC = {'classes': [
         {'name': 'z', 'ty': ('arr', ('ref', 0)), 'min': 0, 'max': 1, 'nillable': True},
         {'name': 'm', 'ty': ('ref', 0), 'min': 0, 'max': None, 'nillable': True},
         {'name': 'd', 'ty': ('ref', 2), 'min': 0, 'max': 1, 'nillable': True},
-        {'name': 'dd', 'ty': ('arr', ('ref', 2)), 'min': 0, 'max': 1, 'nillable': True}]}]}
+        {'name': 'dd', 'ty': ('arr', ('ref', 2)), 'min': 0, 'max': 1, 'nillable': True}]},
+    # every primitive with the documented option empty_is_none=True ('' / b'' are read as None; 0, 0.0, False are values)
+    {'name': 'E', 'parent': None, 'fields': [
+        {'name': 'ei', 'ty': ('prim', 'int', True, True), 'min': 0, 'max': 1, 'nillable': True},
+        {'name': 'ed', 'ty': ('prim', 'double', True, True), 'min': 0, 'max': 1, 'nillable': True},
+        {'name': 'eb', 'ty': ('prim', 'bool', True, True), 'min': 1, 'max': 1, 'nillable': False},
+        {'name': 'ec', 'ty': ('prim', 'decimal', True, True), 'min': 0, 'max': 1, 'nillable': True},
+        {'name': 'et', 'ty': ('prim', 'text', True, True), 'min': 0, 'max': 1, 'nillable': True},
+        {'name': 'ey', 'ty': ('prim', 'bytes', True, True), 'min': 0, 'max': 1, 'nillable': True},
+        {'name': 'ea', 'ty': ('arr', ('prim', 'int', False, True)), 'min': 0, 'max': 1, 'nillable': True},
+        {'name': 'em', 'ty': ('prim', 'double', True, True), 'min': 0, 'max': None, 'nillable': True}]}]}
 
 
 def directed_world():
@@ -739,6 +755,9 @@ def directed_world():
         {'name': 'q', 'params': [], 'results': [P('qResult0', ('ref', 0)), P('qResult1', ('ref', 0)),
                                                  P('qResult2', ('arr', ('ref', 0))), P('qResult3', ('ref', 2))]},
         {'name': 'r', 'params': [], 'results': [P('rResult', ('arr', ('ref', 0)))]},
+        {'name': 'u', 'params': [P('e', ('ref', 4)), P('z', ('prim', 'int', True, True)), P('t', ('prim', 'bool', True, True))],
+         'results': [P('uResult0', ('ref', 4)), P('uResult1', ('prim', 'double', True, True)),
+                     P('uResult2', ('prim', 'bytes', False))]},
     ]
     return World(None, 99, desc=DIRECTED_DESC, sigs=sigs)
 
@@ -800,9 +819,27 @@ def directed_cases(check, tier):
         ('r', [], [('list', [a1, a1])]),
         ('r', [], [('list', [a1, a0, a1])]),
     ]
+    # the falsy boundary value of every kind in members with empty_is_none=True, and ByteArray values that are returned
+    # in several chunks (three chunk renderings each)
+    e_zero = ('obj', 4, [('int', 0), ('double', 0.0), ('bool', False), ('decimal', Dd('0')), ('text', '0'), ('bytes', b'\x00'),
+                         ('list', [('int', 0), ('int', 1), ('int', 0)]), ('list', [('double', -0.0), ('double', 0.0)])])
+    e_mix = ('obj', 4, [('none',), ('double', 1.5), ('bool', True), ('decimal', Dd('0E+3')), ('none',), ('bytes', b'abcde'),
+                        ('list', []), ('list', [])])
+    ein_scen = [
+        ('u', [e_zero, ('int', 0), ('bool', False)], [e_zero, ('double', 0.0), ('bytes', b'abcd' + bytes(range(7)))]),
+        ('u', [e_mix, ('none',), ('none',)], [e_mix, ('double', -0.0), ('bytes', b'')]),
+    ]
     for c in D.all_cfgs():
         styles = [{'key': 'str', 'text': 'str'}, {'key': 'bin', 'text': 'str'}, {'key': 'bin', 'text': 'bin'}] \
             if c['proto'] == 'msgpack' else [{}]
+        for name, args, rets in ein_scen:
+            if c['list'] and any(_has_none_multi(w.desc, p, v) for p, v in zip(sig[name]['params'], args)):
+                continue
+            for seed in (1, 2, 3, 4):      # 4 renders the empty value as no chunk at all
+                oracle_case(check, w, c, sig[name], args, rets, styles[-1], origin='directed', chunk_seed=seed)
+            if c['proto'] == 'msgpack' and c['iw']:
+                oracle_case(check, w, c, sig[name], args, rets, {'key': 'str', 'text': 'str'}, rpc=True,
+                            origin='directed', chunk_seed=4)
         for name, args, rets in shared_scen:
             for sh in (False, True):
                 oracle_case(check, w, c, sig[name], args, rets, styles[-1], origin='directed', share=sh)
@@ -882,7 +919,7 @@ def run(check):
         'by json / PyYAML / msgpack) with a reference decoder; a case is distinct by (family, universe, configuration, '
         'slot or signature, value or document)')
     check.trusted = list(lib.COMMON_TRUSTED) + [
-        'translator harness/translate/dictdoc.py (hier.py / dictdoc/_base.py / json.py / yaml.py / msgpack.py tokens and the handler tables of '
+        'translator harness/translate/dictdoc.py (hier.py / dictdoc/_base.py / json.py / yaml.py / msgpack.py / model/binary.py tokens and the handler tables of '
         'the protocol instances -> Gen/DictDoc.v)',
         'the Python reference codec ref_* in harness/dictdoc.py (the documented conventions as the direct oracle uses '
         'them) and its Coq counterpart coq/C02/Spec.v (senc / sresp / sresp_dec, conformance)',
@@ -896,6 +933,10 @@ def run(check):
         '_object_to_doc / response correspondences return the same instance at sibling members, repeated in arrays and '
         'repeated members, inside a sibling subtree and across the results of one call, and expect the document of '
         'the unshared copy; the translator pins that the id set of the cycle guard is copied per object',
+        'member types may carry empty_is_none=True (modelled: DPrimE; the empty text / byte string is None there by the '
+        'documented meaning of the option and is not generated as a value); Attributes.default is not modelled or generated; '
+        'a ByteArray value is the concatenation of its chunks: natives are rendered as random chunk sequences (list / tuple / '
+        'iterator, empty chunks, no chunk, plain bytes) and the reference reader decodes base64 strictly (RFC 4648, canonical)',
         'body_style is wrapped; no sub_name / order / exc / out_type / type / not_wrapped / simple_field attributes, no File, '
         'Any, AnyDict, XmlAttribute, Uuid, Date/Time/Duration members (dates etc. travel as text exactly like Decimal; '
         'their text codecs are C08 theorems, not re-proved here)',
@@ -972,6 +1013,6 @@ def replay(check, path):
     args = [D.unjsonable(x) for x in r['args']]
     rets = [D.unjsonable(x) for x in r['rets']]
     ok = oracle_case(check, w, r['cfg'], sig, args, rets, r.get('style') or {}, rpc=r.get('rpc', False), origin='replay',
-                     share=r.get('share', False))
+                     share=r.get('share', False), chunk_seed=r.get('chunk_seed', 0))
     check.say('replay %s: %s' % (path, 'the property holds on this input' if ok else 'the property fails on this input'))
     return check.finish()
